@@ -28,6 +28,10 @@ pub struct Program {
     pub raw_hex: Vec<String>,
     /// send every line `repeat` times without reading any reply (pipelining)
     pub repeat: u32,
+    /// lines of a second (administrator) TCP connection; line i is sent at the same instant as the
+    /// attacker's line i so that the two handlers interleave at lock granularity
+    #[serde(default)]
+    pub companion: Vec<String>,
 }
 
 pub const WORDS: [&str; 46] = [
@@ -45,19 +49,41 @@ const TOKENS: [&str; 40] = [
     "pending-ops", "list-dbs", "rwix", "r k*|w *", "abc def", "q|nosuch", "1e9", "+5",
 ];
 
+/// well-formed lines that take the less common lock paths (database switch, creation, named snapshots)
+const LINES: [&str; 16] = [
+    "use-db r tokr", "use-db q tokq", "create-db c1 t1", "create-db c2 t2 newer", "snapshot false q r", "snapshot true q", "snapshot false",
+    "keys", "set k v", "remove k", "increment n 1", "watch k", "unwatch-all", "create-user u1 pw", "debug list-dbs", "cluster-state",
+];
+
 fn gen_line(rng: &mut Rng) -> String {
+    if rng.chance(1, 4) {
+        return LINES[rng.below(LINES.len() as u64) as usize].to_string();
+    }
     let w = WORDS[rng.below(WORDS.len() as u64) as usize];
     let n = rng.below(6);
     let mut s = w.to_string();
     for _ in 0..n {
         s.push(' ');
-        if rng.chance(1, 40) {
-            s.push_str(&"a".repeat(rng.range(300, 5000) as usize));
+        if rng.chance(1, 20) {
+            // long tokens, ASCII or multi-byte (2, 3 and 4 byte characters) so that every byte offset of
+            // the line can fall inside a character
+            let unit = ["a", "é", "漢", "😀", "aé", "a漢😀"][rng.below(6) as usize];
+            let chars = if rng.chance(1, 2) { rng.range(60, 400) } else { rng.range(300, 5000) } as usize;
+            s.push_str(&unit.repeat(chars / unit.chars().count().max(1)));
         } else {
             s.push_str(TOKENS[rng.below(TOKENS.len() as u64) as usize]);
         }
     }
     s
+}
+
+/// two administrator connections issuing well-formed commands at the same instants (lock paths)
+fn gen_concurrent_admins(rng: &mut Rng) -> Program {
+    let n = rng.range(1, 4) as usize;
+    let pick = |rng: &mut Rng| LINES[rng.below(LINES.len() as u64) as usize].to_string();
+    let lines: Vec<String> = (0..n).map(|_| pick(rng)).collect();
+    let companion: Vec<String> = (0..n).map(|_| pick(rng)).collect();
+    Program { via: Via::Tcp, admin: true, select_db: true, lines, raw_hex: vec![], repeat: 1, companion }
 }
 
 fn gen(rng: &mut Rng) -> Program {
@@ -76,7 +102,8 @@ fn gen(rng: &mut Rng) -> Program {
         raw_hex.push(b.iter().map(|x| format!("{:02x}", x)).collect());
     }
     let repeat = if rng.chance(1, 10) { rng.range(101, 260) as u32 } else { 1 };
-    Program { via, admin: rng.chance(1, 2), select_db: rng.chance(2, 3), lines, raw_hex, repeat }
+    let companion: Vec<String> = if rng.chance(1, 2) { (0..n).map(|_| gen_line(rng)).collect() } else { vec![] };
+    Program { via, admin: rng.chance(1, 2), select_db: rng.chance(2, 3), lines, raw_hex, repeat, companion }
 }
 
 struct Outcome {
@@ -140,6 +167,7 @@ fn execute(prog: Program) -> Outcome {
         admin.exec("set n 2147483640");
         admin.exec("set k 1");
         admin.exec("set x abc");
+        admin.exec("create-db r tokr none");
         admin.disconnect();
     }
     let (tcp, ws, http) = (w.nodes[0].tcp.clone(), w.nodes[0].ws.clone(), w.nodes[0].http.clone());
@@ -188,6 +216,20 @@ fn execute(prog: Program) -> Outcome {
         }
         true
     };
+    let mut comp: Option<WireClient> = None;
+    if !prog.companion.is_empty() {
+        if let Some(mut cc) = WireClient::connect(&tcp) {
+            cc.greeting(1_000);
+            cc.request(&format!("auth {} {}", USER, PWD), 2_000);
+            cc.request("use-db q tokq", 2_000);
+            comp = Some(cc);
+        }
+    }
+    let mut companion_send = |i: usize| {
+        if let (Some(cc), Some(l)) = (comp.as_mut(), prog.companion.get(i)) {
+            cc.send_line(l);
+        }
+    };
     match prog.via {
         Via::Tcp => {
             let mut c = match WireClient::connect(&tcp) {
@@ -199,10 +241,11 @@ fn execute(prog: Program) -> Outcome {
                 c.request(l, 2_000);
             }
             let mut n = 1;
-            for l in prog.lines.iter() {
+            for (i, l) in prog.lines.iter().enumerate() {
                 for _ in 0..prog.repeat {
                     c.send_line(l);
                 }
+                companion_send(i);
                 n += 1;
                 if !check(&mut out, l, n) {
                     return out;
@@ -229,10 +272,11 @@ fn execute(prog: Program) -> Outcome {
                 c.request(l, 2_000);
             }
             let mut n = 1;
-            for l in prog.lines.iter() {
+            for (i, l) in prog.lines.iter().enumerate() {
                 for _ in 0..prog.repeat.min(120) {
                     c.send(l);
                 }
+                companion_send(i);
                 n += 1;
                 if !check(&mut out, l, n) {
                     return out;
@@ -245,8 +289,9 @@ fn execute(prog: Program) -> Outcome {
         Via::Http => {
             let mut body = prelude.join(";");
             let mut n = 1;
-            for l in prog.lines.iter() {
+            for (i, l) in prog.lines.iter().enumerate() {
                 let b = if body.is_empty() { l.clone() } else { format!("{};{}", body, l) };
+                companion_send(i);
                 let _ = http_request(&http, &b, 3_000);
                 n += 1;
                 if !check(&mut out, l, n) {
@@ -272,13 +317,13 @@ impl Property for C10 {
         "C10"
     }
     fn scenarios(&self) -> Vec<(&'static str, u32)> {
-        vec![("hostile-input", 1)]
+        vec![("hostile-input", 3), ("concurrent-admins", 1)]
     }
     fn budget(&self) -> (u64, u64) {
         (30_000, 1_500_000)
     }
     fn rule(&self) -> &'static str {
-        "1-4 lines of <command word known to the parser, unknown word, empty> + 0-5 tokens from a hostile alphabet (empty, i32/u64/u128 boundaries and beyond, non-numeric where a number is expected, $$ keys, ';', '|', very long tokens, non-ASCII, addresses) plus optional random raw bytes (incl. invalid UTF-8), sent over TCP, WebSocket or HTTP, unauthenticated or as administrator, with or without a selected database, optionally each line pipelined 101-260 times without reading replies; after every line a second client opens a fresh connection and performs a set/get round trip. Non-trivial: the line parsed to a known command. distinct = distinct (program, task-switch sequence)."
+        "1-4 lines of <command word known to the parser, unknown word, empty> + 0-5 tokens from a hostile alphabet (empty, i32/u64/u128 boundaries and beyond, non-numeric where a number is expected, $$ keys, ';', '|', very long tokens, non-ASCII, addresses) plus optional random raw bytes (incl. invalid UTF-8), sent over TCP, WebSocket or HTTP, unauthenticated or as administrator, with or without a selected database, optionally each line pipelined 101-260 times without reading replies, optionally with a second administrator connection whose i-th line is sent at the same instant as the attacker's i-th line (handlers interleave at lock granularity; half of the seeds model std's writer-preferring RwLock); after every line a second client opens a fresh connection and performs a set/get round trip. Non-trivial: the line parsed to a known command. distinct = distinct (program, task-switch sequence)."
     }
     fn assumptions(&self) -> Vec<String> {
         vec![
@@ -294,6 +339,7 @@ impl Property for C10 {
         let mut rng = Rng::new(ctx.seed);
         let prog: Program = match &ctx.program {
             Some(p) => serde_json::from_value(p.clone()).expect("program"),
+            None if scenario == "concurrent-admins" => gen_concurrent_admins(&mut rng),
             None => gen(&mut rng),
         };
         let mut cfg = SimConfig::new(ctx.seed ^ 0xc10);
